@@ -146,3 +146,16 @@ Proof.
   induction ls as [|l ls IH]; intros j d t H; cbn [layers_out_dim distill_from] in *; [discriminate|].
   destruct (layer_out_dim d l); auto.
 Qed.
+
+(* the model distillation returns a tree exactly for the dimension-consistent layer lists *)
+Theorem distill_defined_iff os tol s : forall ls j d t,
+  (exists r, distill_from os tol s j d t ls = Some r) <-> layers_ok d ls = true.
+Proof.
+  unfold layers_ok. induction ls as [|l ls IH]; intros j d t; cbn [distill_from layers_out_dim].
+  - split; eauto.
+  - destruct (layer_out_dim d l) as [d'|]; [apply IH|]. split; [intros [r H]; discriminate | discriminate].
+Qed.
+(* hence every architecture the builder accepts distills (no dimension panic), whatever the oracles answer *)
+Theorem accepted_architecture_distills os tol s n cs :
+  exists r, distill os tol s n (arch_layers (arch_run false (arch_new n) cs)) = Some r.
+Proof. unfold distill. apply distill_defined_iff. apply run_layers_ok. Qed.
